@@ -10,6 +10,7 @@ first2 = json.load(open(os.path.join(VERIF, "tools", "seed_first_run_r2.json")))
 first2.update(json.load(open(os.path.join(VERIF, "tools", "seed_first_run_r3.json"))))
 first2.update(json.load(open(os.path.join(VERIF, "tools", "seed_first_run_r4.json"))))
 first2.update(json.load(open(os.path.join(VERIF, "tools", "seed_first_run_r5.json"))))
+first2.update(json.load(open(os.path.join(VERIF, "tools", "seed_first_run_r6.json"))))
 rows = []
 for d in sorted(glob.glob(os.path.join(VERIF, "seeded", "*"))):
     name = os.path.basename(d)
